@@ -841,7 +841,7 @@ var c20Endpoints = []c20Endpoint{
 
 func c20R4(c *Ctx) {
 	const R4 = "C20.R4.url-templates"
-	c.Expect(R4, 13)
+	c.Expect(R4, 11) // 8 required endpoints + query + 2 caller rules; helper builders may come and go
 	// builders: package-level functions of registry/remote returning one string
 	// whose template mentions a URL marker; those declared in url.go must all classify
 	var builders []*ssa.Function
